@@ -60,6 +60,7 @@ M0(c) ==
     returned |-> 0,
     cancelled|-> FALSE,         \* the caller cancelled
     mustSignal |-> {},          \* steps with a cancel handler whose plugin was executing when their context ended
+    depObs   |-> {},            \* <<step, path below deploy.tag, value>>: the deployment configuration as the run loop evaluated it
     finDecl  |-> {},            \* steps that declared themselves finished and have not yet delivered their completion
     sigRecv  |-> {},            \* steps whose plugin received the cancel signal
     sigSent  |-> {},            \* steps the cancel signal was enqueued for (or whose plugin had already finished)
@@ -241,6 +242,9 @@ OnProvide(mm, e) ==
       po == IF e.stage = "starting"
               THEN {<<e.step, Strip(o[1], 1), o[2]>> : o \in {x \in mm.ev.obs : x[1] # <<>> /\ x[1][1] = "input"}}
               ELSE {}
+      dpo == IF e.stage = "deploy"
+               THEN {<<e.step, Strip(o[1], 2), o[2]>> : o \in {x \in mm.ev.obs : Len(x[1]) >= 2 /\ x[1][1] = "deploy" /\ x[1][2] = "tag"}}
+               ELSE {}
       \* the value of `enabled` as the run loop evaluated it from the workflow text (boolean forms of the YAML layer)
       off == e.stage = "enabling" /\ \E o \in mm.ev.obs : o[1] = <<"enabled">> /\ o[2] \in {"false", "False", "FALSE", "no", "off", "0", "n", "disable", "disabled"}
       \* the stop condition as the run loop evaluated it: whatever it resolved to - an object, an empty object, zero, a
@@ -250,6 +254,7 @@ OnProvide(mm, e) ==
       sp == IF fired /\ e.step \notin mm.checked /\ e.step \notin mm.spawned THEN {e.step} ELSE {}
   IN  VS([mm EXCEPT !.provided = @ \cup {<<e.step, e.stage>>}, !.provObs = @ \cup po,
                     !.provOff = IF off THEN @ \cup {e.step} ELSE @,
+                    !.depObs = @ \cup dpo,
                     !.stopPending = @ \cup sp], c1 \cup c2 \cup c3)
 
 OnOutSend(mm, e) ==
@@ -362,6 +367,13 @@ Dispatch(mm, e) ==
     [] e.ev = "SExec"     -> OnSExec(mm, e)
     [] e.ev = "SCloseRet" -> [mm EXCEPT !.closedRet = @ \cup {e.step}]
     [] e.ev = "XDeploy"   -> [mm EXCEPT !.conns = @ \cup {e.conn}]
+    \* the deployer is created with the configuration THIS run evaluated for THIS step (not a cached one, not another
+    \* item's): what the scripted deployer sees in its free-form field is what the run loop handed to the deploy stage
+    [] e.ev = "XDeployBegin" ->
+         LET want == {<<x[2], x[3]>> : x \in {y \in mm.depObs : y[1] = e.step}}
+             got  == {<<x.p, x.v>> : x \in Range(e.data)}
+         IN  IF e.step # "nil" /\ want # {} /\ got # want
+               THEN V(mm, "C02", "deployed-with-another-configuration-than-the-one-evaluated-for-this-run", e.step) ELSE mm
     [] e.ev = "XConnClose"-> [mm EXCEPT !.conns = @ \ {e.conn}]
     [] e.ev = "XExecStart"-> OnXExecStart(mm, e)
     [] e.ev = "XExecEnd"  -> [mm EXCEPT !.plugLive = @ \ {e.step}]
